@@ -4,6 +4,7 @@ import PGV.Proofs.LangEq
 import PGV.Proofs.Size
 import PGV.Proofs.EmailEq
 import PGV.Proofs.Accepts
+import PGV.Proofs.AcceptsDate
 
 /-!
 # C05 — format and content rules accept exactly their documented language
@@ -17,8 +18,13 @@ Three layers:
    `prefix`, `suffix` decide what the documentation says.
 3. The `lang` stream: members, single-rune edits of members and random strings through every entry
    point; the implementation's verdict is judged against `Spec.Lang` (also for dates with custom
-   separators, in / include / ints), its text against the model.  `time.Parse`, `net.ParseIP`,
-   `json.Valid`, `regexp` on user patterns and `os.Stat` are residuals answered by the standard library.
+   separators, in / include / ints), its text against the model.  `net.ParseIP`, `json.Valid`,
+   `regexp` on user patterns and `os.Stat` are residuals answered by the standard library.
+4. The date rules: `time.Parse` + `Format` is transcribed (`Model/TimeParse.lean`: layout scanner,
+   literal text with runs of blanks, the six numeric layout elements, day-of-month validation, the two
+   fast paths of `appendInt`) and proved equal to the independent readings `Spec.Lang.year / year2month /
+   date / datetime` for every string and every separator of `sepOK` (`C05_year` … `C05_datetime`); layouts
+   with any other element stay a residual.
 -/
 
 namespace PGV.Props.C05
@@ -108,16 +114,17 @@ refinement of the quote-aware pieces), `ints` with default or custom separator (
 a skip counter = the direct recursion), `unique`, `prefix`, `suffix` and the five patterns. -/
 
 def pureKeys : List Bytes :=
-  [b! "phone", b! "email", b! "idcard", b! "int", b! "float", b! "in", b! "include", b! "ints", b! "unique", b! "prefix", b! "suffix"]
+  [b! "phone", b! "email", b! "idcard", b! "int", b! "float", b! "in", b! "include", b! "ints", b! "unique", b! "prefix", b! "suffix",
+   b! "year", b! "year2month", b! "date", b! "datetime"]
 
 theorem C05_accepts_sound (ext : Ext) (obj field s key arg msg : Bytes) (b : Bool)
     (hk : key ∈ pureKeys) (hb : BAR ∉ arg)
     (h : accepts (mkText key arg msg) s = some b) :
     ∃ run, builtin key = some (.fn run) ∧
       PGV.Proofs.Accepts.Verdict (run ext (mkText key arg msg) obj field (.str s)) b := by
-  open PGV.Proofs.Accepts in
+  open PGV.Proofs.Accepts PGV.Proofs.AcceptsDate in
   simp only [pureKeys, List.mem_cons, List.not_mem_nil, or_false] at hk
-  rcases hk with e | e | e | e | e | e | e | e | e | e | e <;> subst e
+  rcases hk with e | e | e | e | e | e | e | e | e | e | e | e | e | e | e <;> subst e
   · exact sound_phone ext obj field s arg msg b ⟨by decide, by decide, hb⟩ h
   · exact sound_email ext obj field s arg msg b ⟨by decide, by decide, hb⟩ h
   · exact sound_idcard ext obj field s arg msg b ⟨by decide, by decide, hb⟩ h
@@ -129,6 +136,46 @@ theorem C05_accepts_sound (ext : Ext) (obj field s key arg msg : Bytes) (b : Boo
   · exact sound_unique ext obj field s arg msg b ⟨by decide, by decide, hb⟩ h
   · exact sound_prefix ext obj field s arg msg b ⟨by decide, by decide, hb⟩ h
   · exact sound_suffix ext obj field s arg msg b ⟨by decide, by decide, hb⟩ h
+  · exact sound_year ext obj field s arg msg b ⟨by decide, by decide, hb⟩ h
+  · exact sound_year2month ext obj field s arg msg b ⟨by decide, by decide, hb⟩ h
+  · exact sound_date ext obj field s arg msg b ⟨by decide, by decide, hb⟩ h
+  · exact sound_datetime ext obj field s arg msg b ⟨by decide, by decide, hb⟩ h
+
+/-! ### the date rules: `time.Parse` + `Format` back = the documented language
+
+`parseTimeStrict(layout, s)` of the model (`TimeParse.parseStrict`, the transcription of the standard
+library's parser and formatter) on the layouts `GetTimeFmt` builds, for EVERY string `s` and every
+separator made of `- / . : blank + _ , #` (`sepOK`), any length incl. empty: four digits; four digits,
+separator, month 01–12; …, day valid for that month and year (leap years); …, hour 00–23, minute and
+second 00–59.  No residual is involved. -/
+
+theorem C05_year (s : Bytes) : TimeParse.parseStrict (getTimeFmt 1 []) s = some (Spec.Lang.year s) := by
+  rw [PGV.Proofs.AcceptsDate.fmt_year]; exact PGV.Proofs.TimeParse.strict_year s
+
+theorem C05_year2month (sep s : Bytes) (h : sepOK sep = true) :
+    TimeParse.parseStrict (getTimeFmt 3 [sep]) s = some (Spec.Lang.year2month sep s) := by
+  rw [PGV.Proofs.AcceptsDate.fmt_y2m]; exact PGV.Proofs.TimeParse.strict_y2m sep s h
+
+theorem C05_date (sep s : Bytes) (h : sepOK sep = true) :
+    TimeParse.parseStrict (getTimeFmt 7 [sep]) s = some (Spec.Lang.date sep s) := by
+  rw [PGV.Proofs.AcceptsDate.fmt_date]; exact PGV.Proofs.TimeParse.strict_date sep s h
+
+theorem C05_datetime (d t c s : Bytes) (hd : sepOK d = true) (ht : sepOK t = true) (hc : sepOK c = true) :
+    TimeParse.parseStrict (getTimeFmt 63 [d, t, c]) s = some (Spec.Lang.datetime d t c s) := by
+  rw [PGV.Proofs.AcceptsDate.fmt_datetime]; exact PGV.Proofs.TimeParse.strict_datetime d t c s hd ht hc
+
+/-- the scanner of layouts: a separator of `sepOK` bytes in front of a two-digit element is literal text -/
+theorem C05_layout_scan (sep : Bytes) (h : sepOK sep = true) (rest : Bytes) :
+    TimeParse.nextStd [] (sep ++ [48, 50] ++ rest) = .std sep .zeroDay rest := by
+  simpa [PGV.Proofs.TimeParse.stdText] using PGV.Proofs.TimeParse.nextStd_sep [] sep h .zeroDay (by decide) rest
+
+-- non-vacuity: real calls, evaluated by the kernel
+example : TimeParse.parseStrict (getTimeFmt 7 [[45]]) (b! "2024-02-29") = some true := by decide
+example : TimeParse.parseStrict (getTimeFmt 7 [[45]]) (b! "2023-02-29") = some false := by decide
+example : TimeParse.parseStrict (getTimeFmt 63 [[45], [32], [58]]) (b! "2022-11-09  4:00:00") = some false := by decide
+example : TimeParse.parseStrict (getTimeFmt 63 [[45], [32], [58]]) (b! "2022-11-09 04:00:00") = some true := by decide
+example : TimeParse.parseStrict (getTimeFmt 63 [[45], [32], [58]]) (b! "2022-11-09 04:00:00.5") = some false := by decide
+example : TimeParse.parseStrict (b! "2006-01-02 PM") (b! "2022-11-09 PM") = none := by decide
 
 /-- `in` compares numbers (and bools) by their canonical rendering: for every value that `ToStr`
 renders — integers of any width in decimal, floats by their shortest round-trip text, bools as
